@@ -624,3 +624,12 @@ func intRange(ty types.Type) (lo, hi string, ok bool) {
 	h := new(big.Int).Lsh(big.NewInt(1), uint(bits))
 	return "0", new(big.Int).Sub(h, big.NewInt(1)).String(), true
 }
+
+// elt(row, off, i) = row[off+i]; used for every slice element read so that quantified facts
+// about slice contents have a usable trigger.
+func (u *Universe) elt(es Sort) string {
+	name := "elt_" + sortKey(es)
+	u.ufun(name, []Sort{fmt.Sprintf("(Array Int %s)", es), SInt, SInt}, es)
+	u.axiom(name, fmt.Sprintf("(assert (forall ((r (Array Int %s)) (o Int) (i Int)) (! (= (%s r o i) (select r (+ o i))) :pattern ((%s r o i)))))", es, name, name))
+	return name
+}
